@@ -101,6 +101,8 @@ def present_pair(c, rng, disjoint=False):
     rng.shuffle(syms)
     d = dict(c)
     d.update({"A": A, "B": B, "syms": syms, "pres": [na, nb]})
+    if c.get("op") == "incl" and len(A["rules"]) >= 2 and rng.random() < 0.15:
+        d["split"] = rng.randint(1, len(A["rules"]) - 1)       # ask-twice mode (see harness BuildMaybeSplit)
     return d
 
 
